@@ -361,6 +361,70 @@ fn vhistories(depth: usize) -> Vec<Vec<VOp>> {
     all
 }
 
+/// DX at the client level: two overlapping requests on a fresh client (both may dial, in either order of completion),
+/// then — once both are finished — two sequential requests. Sessions that were created and never handed out again are
+/// still in the pool (model: a connection with exactly one SYN), so the last request must not dial while one exists.
+pub fn make_burst_then_sequential() -> crate::ctl::ScenarioFn {
+    use crate::cworld::*;
+    use crate::ctl::{Outcome, hpoint, scenario, settle};
+    scenario(move || async move {
+        let mut out = Outcome::default();
+        let w = CWorld::start(crate::sess::padding(crate::sess::STOP0), quiet_pool(1), Answer::Ok);
+        let mut hs = vec![];
+        for t in 0..2u16 {
+            let c = w.client.clone();
+            hs.push(tokio::spawn(async move {
+                hpoint("h.c13.burst").await;
+                crate::sess::within(c.create_proxy_stream(("example.com".to_string(), 2001 + t))).await
+            }));
+        }
+        let mut held = vec![];
+        for h in hs {
+            match h.await {
+                Ok(Some(Ok(x))) => held.push(x),
+                other => {
+                    out.viol("C13:request-failed", format!("burst request: {:?}", other.map(|o| o.map(|r| r.map(|_| ()).map_err(|e| e.to_string())))));
+                    return out;
+                }
+            }
+        }
+        drop(held);
+        settle().await;
+        let syns = |l: &ConnLog| l.frames.iter().filter(|f| f.cmd == crate::refmodel::SYN).count();
+        let mut dial_log = vec![w.dials()];
+        for r in 0..2u16 {
+            let logs0 = w.logs();
+            let pooled: Vec<usize> = (0..logs0.len()).filter(|i| !logs0[*i].eof && syns(&logs0[*i]) == 1).collect();
+            let before = w.dials();
+            match crate::sess::within(w.client.create_proxy_stream(("example.com".to_string(), 2101 + r))).await {
+                Some(Ok(x)) => drop(x),
+                other => {
+                    out.viol("C13:request-failed", format!("sequential request {r}: {:?}", other.map(|o| o.map(|_| ()).map_err(|e| e.to_string()))));
+                    return out;
+                }
+            }
+            settle().await;
+            let dialled = w.dials() - before;
+            dial_log.push(w.dials());
+            if dialled > 0 && !pooled.is_empty() {
+                out.viol("C13:redial-while-healthy-session-exists:pooled-session-ignored", format!("two overlapping requests, both finished, then sequential request #{}: {dialled} new connection(s) dialled although connection(s) {:?} carry a healthy session that was created, pooled and never handed out again (SYNs per connection: {:?})", r + 1, pooled, logs0.iter().map(syns).collect::<Vec<_>>()));
+                break;
+            }
+        }
+        out.obs = format!("dials={:?}", dial_log);
+        w.client.stop_session_pool_cleanup().await;
+        drop(w);
+        out
+    })
+}
+
+pub fn burst_items(tier: Tier) -> Vec<crate::dxrun::DxItem> {
+    let mut it = crate::dxrun::DxItem::new(json!({"part": "client-level burst then sequential requests"}), make_burst_then_sequential(), if tier.is_thorough() { 3 } else { 2 });
+    it.exec.quiesce = true;
+    it.exec.long_yield = 3;
+    vec![it]
+}
+
 fn virtual_family(rep: &mut Report, thorough: bool) {
     let depth = if thorough { 7 } else { 6 };
     let hs = Arc::new(vhistories(depth));
@@ -395,6 +459,7 @@ pub fn run(tier: Tier) -> i32 {
         "TLS connections are counted by a TCP relay in front of the real server".into(),
     ];
     virtual_family(&mut rep, thorough);
+    crate::dxrun::run_items(&mut rep, "C13", tier, burst_items(tier), crate::dxrun::DxOpts { time_cap: Duration::from_secs(if thorough { 600 } else { 45 }), det_replays: 2, max_violations: 2, vacuity_check: false });
     let depth = if thorough { 6 } else { 4 };
     let mut hs = histories(depth);
     // plus every history over {start, finish} alone up to depth 6 (7): the plain request sequences
@@ -523,5 +588,5 @@ pub fn run(tier: Tier) -> i32 {
             rep.sections.insert("bx".into(), json!({"histories": hs.len(), "short_timeout_histories_with_a_wait": wait_family, "depth": depth, "min_idle_values": if thorough { vec![0, 1, 2] } else { vec![0, 1] }}));
         }
     }
-    rep.finish("BX in virtual time: every history of depth 6 (7) over {start request, a request rejected locally, finish request i, the server drops connection j, wait I/2, wait > T+I} on the real Client over the in-memory dialer seam (H12) against a scripted TLS server, 3 (5) interval/timeout/min_idle configurations; BX over LX: every history of length <= d over {start request, burst of 2 concurrent requests, finish request i, session j dies} x min_idle in {0,1,2} (+ a short-timeout family: every history over {start, finish, wait longer than the idle timeout} with one wait, idle timeout 1 s) through the real Client and Server over TLS; per request the session identity and the number of new TLS connections, per step the number of open sessions vs peak concurrency + min_idle; non-trivial = distinct history with >= 2 requests")
+    rep.finish("DX (<= 2 (3) deviations) of two overlapping requests on a fresh real Client followed by two sequential ones (in-memory dialer seam); BX in virtual time: every history of depth 6 (7) over {start request, a request rejected locally, finish request i, the server drops connection j, wait I/2, wait > T+I} on the real Client over the in-memory dialer seam (H12) against a scripted TLS server, 3 (5) interval/timeout/min_idle configurations; BX over LX: every history of length <= d over {start request, burst of 2 concurrent requests, finish request i, session j dies} x min_idle in {0,1,2} (+ a short-timeout family: every history over {start, finish, wait longer than the idle timeout} with one wait, idle timeout 1 s) through the real Client and Server over TLS; per request the session identity and the number of new TLS connections, per step the number of open sessions vs peak concurrency + min_idle; non-trivial = distinct history with >= 2 requests")
 }
